@@ -65,7 +65,7 @@ def run(rep, tier, seed):
                         "text-family classes are only used on shapes that carry text (the reference's precondition)"]
     fam = "full" if big else "small"
     cfg = vlib.cfg_text(constants={"Family": fam, "Deviations": set()}, invariants=INV + ["Export"])
-    r = vlib.run_tlc("MC_Styles", cfg, "styles-" + fam, workers=8, timeout=1500, keep_stdout=True)
+    r = vlib.run_tlc("MC_Styles", cfg, "styles-" + fam, workers=8, timeout=2400, keep_stdout=True, max_replay=(120000 if big else None))
     if not r.ok:
         raise vlib.ToolError(f"Styles.tla: {r.violated}: specification error")
     rep.add_tlc(r, f"Styles.tla ({fam}): Minimal, Complete, Closed, NothingWhenOff, PermIndependent")
